@@ -917,7 +917,8 @@ func (r *Reader) processHeading(h headingXML) parsedParagraph {
 
 	// Parse outline level
 	if h.OutlineLevel != "" {
-		if level, err := strconv.Atoi(h.OutlineLevel); err == nil && level >= 1 && level <= 9 {
+		// ODF outline levels run from 1 to 10 ("Heading 10" is a predefined style)
+		if level, err := strconv.Atoi(h.OutlineLevel); err == nil && level >= 1 && level <= 10 {
 			parsed.Level = level
 		}
 	}
